@@ -1171,3 +1171,5 @@ B("C18", "predicate-unwraps-any-modifier", (ORQD, """        return (
 B("C18", "predicate-unguarded-wrapped-gate", (ORQD, """            or isinstance(operation.gate, ControlledGate)
             and operation.gate.wrapped_gate.name == "U3\"""", """            or hasattr(operation.gate, "wrapped_gate")
             and operation.gate.wrapped_gate.name == "U3\""""), rule="C18-D4")
+B("C06", "custom-gate-sequential-substitution", (GAT, "            {symbol: arg for symbol, arg in zip(self.params_ordering, gate_params)},\n            simultaneous=True,\n        )", "            {symbol: arg for symbol, arg in zip(self.params_ordering, gate_params)}\n        )"), rule="C06-D5")
+T("C06", "twin-custom-gate-xreplace", (GAT, "        return self.matrix.subs(\n            {symbol: arg for symbol, arg in zip(self.params_ordering, gate_params)},\n            simultaneous=True,\n        )", "        return self.matrix.xreplace(\n            {symbol: arg for symbol, arg in zip(self.params_ordering, gate_params)}\n        )"))
